@@ -9,6 +9,7 @@ pub mod c06;
 pub mod c07;
 pub mod c10;
 pub mod c12;
+pub mod c13;
 pub mod c14;
 pub mod c15;
 pub mod c18;
@@ -24,6 +25,7 @@ pub fn registry() -> Vec<PropEntry> {
         PropEntry { id: "C07", run: c07::run, replay: c07::replay },
         PropEntry { id: "C10", run: c10::run, replay: c10::replay },
         PropEntry { id: "C12", run: c12::run, replay: c12::replay },
+        PropEntry { id: "C13", run: c13::run, replay: c13::replay },
         PropEntry { id: "C14", run: c14::run, replay: c14::replay },
         PropEntry { id: "C15", run: c15::run, replay: c15::replay },
         PropEntry { id: "C18", run: c18::run, replay: c18::replay },
